@@ -108,20 +108,87 @@ def _assignments(keys: list, limit: int, seed: int):
         yield env
 
 
+def _columns(keys: list, limit: int, seed: int):
+    """Truth columns as bit masks: column[k] has bit r set iff atom k is true in row r.
+    Exhaustive (2^n rows) when that fits into `limit`, otherwise all-false / all-true / one-hot /
+    one-cold rows followed by `limit` pseudo-random rows (deterministic in `seed`)."""
+    n = len(keys)
+    if 2 ** n <= limit:
+        rows = 2 ** n
+        cols = {}
+        for i, k in enumerate(keys):
+            period = 1 << (i + 1)
+            half = 1 << i
+            block = ((1 << half) - 1) << half  # 'half' zeros then 'half' ones
+            reps = rows // period
+            col = 0
+            for r in range(reps):
+                col |= block << (r * period)
+            cols[k] = col
+        return cols, rows, True
+    structured = 2 + 2 * n
+    rows = structured + limit
+    x = (seed * 2654435761 + 12345) % (2 ** 61 - 1)
+    cols = {}
+    for i, k in enumerate(keys):
+        col = 0
+        col |= 1 << 1  # row 1: all true
+        col |= 1 << (2 + 2 * i)  # one-hot row of atom i
+        for j in range(n):  # one-cold rows: all true except atom j
+            if j != i:
+                col |= 1 << (3 + 2 * j)
+        rnd = 0
+        for _ in range((limit + 63) // 64):
+            x = (x * 6364136223846793005 + 1442695040888963407) % (2 ** 64)
+            rnd = (rnd << 64) | x
+        rnd &= (1 << limit) - 1
+        col |= rnd << structured
+        cols[k] = col
+    return cols, rows, False
+
+
+def _bits(f: Formula, cols: dict, full: int) -> int:
+    t = f[0]
+    if t == "atom":
+        return cols[f[1]]
+    if t == "not":
+        return full & ~_bits(f[1], cols, full)
+    if t == "and":
+        r = full
+        for g in f[1]:
+            r &= _bits(g, cols, full)
+        return r
+    if t == "or":
+        r = 0
+        for g in f[1]:
+            r |= _bits(g, cols, full)
+        return r
+    if t == "true":
+        return full
+    if t == "false":
+        return 0
+    raise ValueError(f"bad formula node {t!r}")
+
+
 def equivalent(f: Formula, g: Formula, limit: int = 16384, seed: int = 0):
     """Return (True, None, exhaustive) or (False, counterexample_env, exhaustive).
 
     Atoms are independent variables.  If the atom sets differ the union is used, so an atom
-    that appears on one side only must be irrelevant there for equivalence to hold."""
+    that appears on one side only must be irrelevant there for equivalence to hold.  Both sides
+    are evaluated on all rows at once (bit-parallel truth table)."""
     keys = atoms(f)
     for k in atoms(g):
         if k not in keys:
             keys.append(k)
-    exhaustive = 2 ** len(keys) <= limit
-    for env in _assignments(keys, limit, seed):
-        if evaluate(f, env) != evaluate(g, env):
-            return False, env, exhaustive
-    return True, None, exhaustive
+    cols, rows, exhaustive = _columns(keys, limit, seed)
+    full = (1 << rows) - 1
+    diff = _bits(f, cols, full) ^ _bits(g, cols, full)
+    if diff == 0:
+        return True, None, exhaustive
+    r = (diff & -diff).bit_length() - 1
+    env = {k: bool((cols[k] >> r) & 1) for k in keys}
+    assert evaluate(f, env) != evaluate(g, env)
+    return False, env, exhaustive
 
 
 def show(f: Formula) -> str:
